@@ -89,6 +89,7 @@ def plain_forms(vc):
     fp = FP()
     data0 = p['data']
     d0 = SArr(data0.shape, data0._snapshot(), 'real')
+    vc.probe_indices = [Int('i'), Int('i') + 1]
     out = vc.call(ADD, f, path, tp, fp, bp_profile=bp, bounding_f_range=rng_bounds)
     vc.cover('reachable')
     vc.ensure('C01/add_signal/plain/exc/none', out.ok)
